@@ -62,7 +62,7 @@ def _collect(fs):
                         lens[i] = x
             if z3.is_const(x) and x.decl().kind() == z3.Z3_OP_UNINTERPRETED:
                 nm = x.decl().name()
-                if x.sort() == z3.IntSort() and ('_n!' in nm):
+                if x.sort() == z3.IntSort() and ('_n!' in nm) and not nm.startswith('dk_n'):
                     lens[i] = x
                 consts.setdefault(x.sort().name(), {})[i] = x
             if z3.is_string_value(x):
@@ -136,7 +136,7 @@ def instantiate(fs, N):
     return out
 
 
-def finite_scope(key, label, path, tier='quick', scopes=(2, 3, 4)):
+def finite_scope(key, label, path, tier='quick', scopes=(2, 4, 7)):
     """Re-generate the obligation (same function, label and path) and search a counter-model in
     finite scope.  Returns dict(status=sat|unsat|unknown, model=..., prestate=...)."""
     from . import verify
